@@ -67,14 +67,17 @@ RemoveHandler(id, nested) ==
     /\ UNCHANGED <<now, st, hw, last, pcall, incall, pev>>
     /\ act' = [op |-> "remove", id |-> id, nested |-> nested]
 \* a timed handler's deadline has come and the switch never changed in between
-TFire(id) == /\ ~incall /\ \E e \in timed : e.id = id /\ e.due = now /\ timed' = timed \ {e}
-             /\ UNCHANGED <<now, st, hw, last, reg, pcall, incall, pev, nops>>
-             /\ act' = [op |-> "tfire", id |-> id, t |-> now]
+\* (its callback may remove another handler - rm - on the spot: that one must not fire any more, even if it was due now too)
+TFire(id, rm) == /\ ~incall /\ rm # id /\ (rm = "" \/ rm \in Ids(reg))
+                 /\ \E e \in timed : e.id = id /\ e.due = now /\ timed' = {x \in timed \ {e} : x.id # rm}
+                 /\ reg' = {h \in reg : h.id # rm}
+                 /\ UNCHANGED <<now, st, hw, last, pcall, incall, pev, nops>>
+                 /\ act' = [op |-> "tfire", id |-> id, t |-> now, rm |-> rm]
 Tick == /\ ~incall /\ ~Overdue /\ pev = {} /\ now < MaxTime /\ now' = now + 1
         /\ UNCHANGED <<st, hw, last, reg, timed, pcall, incall, pev, nops>> /\ act' = [op |-> "tick"]
 Next == \/ \E s \in Sw, v \in {0, 1}, b \in BOOLEAN : Report(s, v, b)
-        \/ \E id \in Hid : Call(id) \/ TFire(id) \/ (\E b \in BOOLEAN : RemoveHandler(id, b))
-        \/ TFire(HeldId) \/ EndReport \/ Tick
+        \/ \E id \in Hid : Call(id) \/ (\E rm \in Hid \cup {""} : TFire(id, rm)) \/ (\E b \in BOOLEAN : RemoveHandler(id, b))
+        \/ TFire(HeldId, "") \/ EndReport \/ Tick
         \/ \E s \in Sw, n \in {0, 1} : Deliver(s, n)
         \/ \E id \in Hid, s \in Sw, n \in {0, 1}, ms \in Hold, b \in BOOLEAN : AddHandler(id, s, n, ms, b)
 Spec == Init /\ [][Next]_vars
